@@ -314,7 +314,11 @@ def reference_value_of(f, ctx):
     el = fs.ufl_element()
     key = terminal_key(f, env)
     cell = ctx.cell()
-    return env.fields.reference_value(key, el, cell, side, Xjets(ctx), xjets(ctx))
+    shift = getattr(env, "comp_shift", None)
+    shift = shift.get(f, 0) if shift else 0
+    # arguments (basis functions) are real also in complex mode (UFL's documented convention)
+    imag_ok = type(f).__name__ != "Argument" or getattr(env.fields, "complex_arguments", False)
+    return env.fields.reference_value(key, el, cell, side, Xjets(ctx), xjets(ctx), imag_ok=imag_ok, shift=shift)
 
 
 def _is_continuous(f):
